@@ -377,7 +377,7 @@ def rule_ping_cycle(ctx):
         def oracle(fname, args, kwargs=None):
             if fname.endswith("call_later"):
                 return mk_timer(*args)
-            if fname.endswith("struct.unpack"):
+            if fname.endswith("struct.unpack") or fname.endswith("struct.unpack_from"):
                 return [7] * max(1, sum(1 for ch in str(args[0]) if ch.isalpha()))
             if fname.endswith("time_ns"):
                 return 10 ** 9
@@ -428,7 +428,19 @@ def rule_ping_cycle(ctx):
     ctx.require(n >= 5, f"only {n} ping cycle cells")
 
 
+def rule_configured(ctx):
+    """"configured timeouts": what the application hands to setProtocolOptions is what the connection's timers are armed with"""
+    from .common import rule_option_setters
+    T = [("openHandshakeTimeout", "num"), ("closeHandshakeTimeout", "num"), ("autoPingInterval", "num"), ("autoPingTimeout", "num"), ("autoPingSize", "num"),
+         ("autoPingRestartOnAnyTraffic", "bool")]
+    rule_option_setters(ctx, "C17.8-configured-timeouts-reach-the-factory",
+                        [("WebSocketServerFactory", o_, k_) for o_, k_ in T] + [("WebSocketClientFactory", o_, k_) for o_, k_ in T] +
+                        [("WebSocketClientFactory", "serverConnectionDropTimeout", "num")],
+                        "a silent peer is then dropped after the default (or never: 0 disables the timer) instead of the configured time")
+
+
 def run(ctx):
+    rule_configured(ctx)
     rule_open_timeout_states(ctx)
     rule_ping_cycle(ctx)
     rule_table(ctx)
